@@ -55,7 +55,7 @@ Proof.
 Qed.
 
 (* ================= no panic / fuel / small requests for the main header ================= *)
-Definition KB : Z := 262144.
+Definition KB : Z := 1048576.
 
 Lemma k_rd8_good : forall g d o, bytes d -> 0 <= o ->
   good g KB (fun x => snd x = o + 1 /\ 0 <= fst x < 256) (k_rd8 d o).
@@ -64,9 +64,9 @@ Proof.
   apply good_ret. cbn [fst snd]. split; [reflexivity|apply bytes_znth; auto].
 Qed.
 Lemma k_rd16_good : forall g d o, bytes d -> 0 <= o ->
-  good g KB (fun x => snd x = o + 2 /\ 0 <= fst x <= 65535) (k_rd16 d o).
+  good g KB (fun x => snd x = o + 2 /\ 0 <= fst x <= 65535 /\ o + 2 <= zlen d) (k_rd16 d o).
 Proof.
-  intros. unfold k_rd16. destruct (zlen d <? o + 2); [apply good_err|].
+  intros. unfold k_rd16. destruct (Z.ltb_spec (zlen d) (o + 2)); [apply good_err|].
   apply good_ret. cbn [fst snd]. split; [reflexivity|].
   pose proof (bytes_znth d o H). pose proof (bytes_znth d (o + 1) H). lia.
 Qed.
@@ -95,14 +95,14 @@ Lemma k_rd_comp_good : forall g cs d o, bytes d -> 0 <= o ->
   good g KB (fun x => o <= snd x /\ 0 <= fst x <= 65535) (k_rd_comp cs d o).
 Proof.
   intros. unfold k_rd_comp. destruct (comp_bytes cs =? 2).
-  - eapply good_weaken; [apply k_rd16_good; auto|lia|]. cbv beta. intros a (E & R). lia.
+  - eapply good_weaken; [apply k_rd16_good; auto|lia|]. cbv beta. intros a (E & R & _). lia.
   - eapply good_weaken; [apply k_rd8_good; auto|lia|]. cbv beta. intros a (E & R). lia.
 Qed.
 Lemma comp_bytes_range : forall cs, 1 <= comp_bytes cs <= 2.
 Proof. intros. unfold comp_bytes. destruct (256 <? cs); lia. Qed.
 
 Ltac rd8 v o E := eapply good_bind; [apply k_rd8_good; [assumption|lia]|]; intros [v o] (E & ?); cbn [fst snd] in *; subst o.
-Ltac rd16 v o E := eapply good_bind; [apply k_rd16_good; [assumption|lia]|]; intros [v o] (E & ?); cbn [fst snd] in *; subst o.
+Ltac rd16 v o E := eapply good_bind; [apply k_rd16_good; [assumption|lia]|]; intros [v o] (E & ? & ?); cbn [fst snd] in *; subst o.
 Ltac rd32 v o E := eapply good_bind; [apply k_rd32_good; [assumption|lia]|]; intros [v o] (E & ?); cbn [fst snd] in *; subst o.
 
 Lemma k_skip_good : forall g d o, bytes d -> 0 <= o -> good g KB (fun o' => o <= o') (k_skip_segment d o).
@@ -184,3 +184,216 @@ Proof.
       * split; [discriminate|]. split; [discriminate|]. split; [repeat constructor; unfold KB; lia|].
         intros a Ha. inversion Ha; subst. lia.
 Qed.
+
+Lemma k_parse_qcc_good : forall g cs d o, bytes d -> 0 <= o ->
+  good g KB (fun x => o <= snd x) (k_parse_qcc cs d o).
+Proof.
+  intros. unfold k_parse_qcc. pose proof (comp_bytes_range cs).
+  rd16 len o1 E1.
+  eapply good_bind; [apply k_rd_comp_good; [auto|lia]|]. intros [cp o2] (Ho2 & _). cbn [fst snd] in *.
+  rd8 sq o3 E3.
+  destruct (Z.ltb_spec (len - 3 - comp_bytes cs) 0); [apply good_err|].
+  eapply good_bind; [apply k_read_buf_good; lia|]. intros o4 Ho4. cbv beta in Ho4.
+  eapply good_bind; [apply k_len_fix_good; lia|]. intros o5 (Ho5 & Ho5'). cbv beta in *.
+  apply good_ret. cbn [snd]. lia.
+Qed.
+
+Lemma k_poc_entries_good : forall g cs d k o, bytes d -> 0 <= o -> good g KB (fun o' => o <= o') (k_poc_entries cs d k o).
+Proof.
+  intros g cs d k. induction k as [|k IH]; intros o Hb Ho; cbn [k_poc_entries]; [apply good_ret; lia|].
+  rd8 a o1 E1.
+  eapply good_bind; [apply k_rd_comp_good; [auto|lia]|]. intros [b o2] (Ho2 & _). cbn [fst snd] in *.
+  rd16 c o3 E3. rd8 e o4 E4.
+  eapply good_bind; [apply k_rd_comp_good; [auto|lia]|]. intros [f o5] (Ho5 & _). cbn [fst snd] in *.
+  rd8 h o6 E6.
+  eapply good_weaken; [apply IH; [auto|lia]|lia|]. cbv beta; intros; lia.
+Qed.
+
+Lemma k_parse_poc_good : forall g cs d o, bytes d -> 0 <= o -> good g KB (fun o' => o <= o') (k_parse_poc cs d o).
+Proof.
+  intros. unfold k_parse_poc. pose proof (comp_bytes_range cs).
+  rd16 len o1 E1.
+  destruct (Z.ltb_spec (len - 2) (5 + 2 * comp_bytes cs)); cbn [orb]; [apply good_err|].
+  destruct (negb (Z.rem (len - 2) (5 + 2 * comp_bytes cs) =? 0)); [apply good_err|].
+  assert (Hq : 0 <= Z.quot (len - 2) (5 + 2 * comp_bytes cs) <= 65535).
+  { rewrite Z.quot_div_nonneg by lia. split; [apply Z.div_pos; lia|].
+    apply Z.div_le_upper_bound; lia. }
+  eapply good_bind; [apply good_alloc with (post := fun _ => True); [lia|rewrite maxAlloc_val; lia|unfold KB; lia|exact I]|].
+  intros _ _. eapply good_weaken; [apply k_poc_entries_good; [auto|lia]|lia|]. cbv beta; intros; lia.
+Qed.
+
+Lemma k_parse_rgn_good : forall g cs d o, bytes d -> 0 <= o -> good g KB (fun o' => o <= o') (k_parse_rgn cs d o).
+Proof.
+  intros. unfold k_parse_rgn. pose proof (comp_bytes_range cs).
+  rd16 len o1 E1.
+  destruct (Z.ltb_spec len (4 + comp_bytes cs)); [apply good_err|].
+  eapply good_bind; [apply k_rd_comp_good; [auto|lia]|]. intros [a o2] (Ho2 & _). cbn [fst snd] in *.
+  rd8 b o3 E3. rd8 c o4 E4.
+  destruct (Z.ltb_spec 0 (len - (4 + comp_bytes cs))); [|apply good_ret; lia].
+  eapply good_weaken; [apply k_read_buf_good; lia|lia|]. cbv beta; intros; lia.
+Qed.
+
+Lemma k_parse_com_good : forall g d o, bytes d -> 0 <= o -> good g KB (fun o' => o <= o') (k_parse_com g d o).
+Proof.
+  intros. unfold k_parse_com. rd16 len o1 E1. rd16 rc o2 E2.
+  destruct g; cbn [andb].
+  - destruct (Z.ltb_spec len 4); [apply good_err|].
+    eapply good_weaken; [apply k_read_buf_good; lia|lia|]. cbv beta; intros; lia.
+  - unfold k_read_buf, alloc.
+    destruct ((len - 4 <? 0) || (maxAlloc <? (len - 4) * 1)) eqn:Ea.
+    + unfold bind; cbn [fst snd]. unfold good; cbn [fst snd]. split; [discriminate|]. split; [discriminate|].
+      split; [repeat constructor; unfold KB; lia|intros; discriminate].
+    + unfold bind; cbn [fst snd]. apply orb_false_iff in Ea. destruct Ea as [Ea _]. apply Z.ltb_ge in Ea.
+      destruct (zlen d <? o + 2 + 2 + (len - 4)); unfold good, err, ret; cbn [fst snd].
+      * split; [discriminate|]. split; [discriminate|]. split; [repeat constructor; unfold KB; lia|intros; discriminate].
+      * split; [discriminate|]. split; [discriminate|]. split; [repeat constructor; unfold KB; lia|].
+        intros a Ha. inversion Ha; subst. lia.
+Qed.
+
+Lemma k_parse_mct_good : forall g d o, bytes d -> 0 <= o -> good g KB (fun o' => o <= o') (k_parse_mct d o).
+Proof.
+  intros. unfold k_parse_mct. rd16 len o1 E1.
+  destruct (Z.ltb_spec (len - 2) 6); [apply good_err|].
+  rd16 z o2 E2. destruct (negb (z =? 0)); [apply good_err|].
+  rd16 im o3 E3. rd16 ym o4 E4. destruct (negb (ym =? 0)); [apply good_err|].
+  eapply good_weaken; [apply k_read_buf_good; lia|lia|]. cbv beta; intros; lia.
+Qed.
+
+Lemma k_rd_ids_good : forall g two d k o, bytes d -> 0 <= o -> good g KB (fun o' => o <= o') (k_rd_ids two d k o).
+Proof.
+  intros g two d k. induction k as [|k IH]; intros o Hb Ho; cbn [k_rd_ids]; [apply good_ret; lia|].
+  eapply good_bind with (pa := fun x => o <= snd x).
+  { destruct two.
+    - eapply good_weaken; [apply k_rd16_good; auto|lia|]. cbv beta. intros a (E & _ & _). lia.
+    - eapply good_weaken; [apply k_rd8_good; auto|lia|]. cbv beta. intros a (E & _). lia. }
+  intros [v o1] Ho1. cbn [fst snd] in *.
+  eapply good_weaken; [apply IH; [auto|lia]|lia|]. cbv beta; intros; lia.
+Qed.
+
+Lemma mod_32768 : forall x, 0 <= x <= 65535 -> 0 <= x mod 32768 <= 32767.
+Proof. intros. pose proof (Z.mod_pos_bound x 32768 ltac:(lia)). lia. Qed.
+
+Lemma k_parse_mcc_good : forall g d o, bytes d -> 0 <= o -> good g KB (fun o' => o <= o') (k_parse_mcc d o).
+Proof.
+  intros. unfold k_parse_mcc. rd16 len o1 E1.
+  destruct (Z.ltb_spec (len - 2) 7); [apply good_err|].
+  rd16 z o2 E2. destruct (negb (z =? 0)); [apply good_err|].
+  rd8 ix o3 E3. rd16 ym o4 E4. destruct (negb (ym =? 0)); [apply good_err|].
+  rd16 qm o5 E5. destruct (qm =? 0); [apply good_err|].
+  rd8 ct o6 E6. rd16 nm o7 E7.
+  pose proof (mod_32768 nm ltac:(lia)) as Hn1.
+  eapply good_bind; [apply good_alloc with (post := fun _ => True); [lia|rewrite maxAlloc_val; lia|unfold KB; lia|exact I]|].
+  intros _ _.
+  eapply good_bind; [apply k_rd_ids_good; [auto|lia]|]. intros o8 Ho8. cbv beta in Ho8.
+  rd16 mm o9 E9.
+  pose proof (mod_32768 mm ltac:(lia)) as Hn2.
+  eapply good_bind; [apply good_alloc with (post := fun _ => True); [lia|rewrite maxAlloc_val; lia|unfold KB; lia|exact I]|].
+  intros _ _.
+  eapply good_bind; [apply k_rd_ids_good; [auto|lia]|]. intros o10 Ho10. cbv beta in Ho10.
+  rd8 t0 o11 E11. rd8 t1 o12 E12. rd8 t2 o13 E13.
+  match goal with |- context [if 0 <? ?r then _ else _] => destruct (Z.ltb_spec 0 r) end; [|apply good_ret; lia].
+  eapply good_weaken; [apply k_read_buf_good| |].
+  - assert (1 <= (if 32768 <=? nm then 2 else 1)) by (destruct (32768 <=? nm); lia).
+    assert (1 <= (if 32768 <=? mm then 2 else 1)) by (destruct (32768 <=? mm); lia).
+    assert (0 <= (if 32768 <=? nm then 2 else 1) * (nm mod 32768)) by (apply Z.mul_nonneg_nonneg; lia).
+    assert (0 <= (if 32768 <=? mm then 2 else 1) * (mm mod 32768)) by (apply Z.mul_nonneg_nonneg; lia).
+    lia.
+  - lia.
+  - cbv beta; intros; lia.
+Qed.
+
+Lemma k_parse_mco_good : forall g d o, bytes d -> 0 <= o -> good g KB (fun o' => o <= o') (k_parse_mco d o).
+Proof.
+  intros. unfold k_parse_mco. rd16 len o1 E1.
+  destruct (Z.ltb_spec (len - 2) 1); [apply good_err|].
+  rd8 ns o2 E2.
+  eapply good_bind; [apply good_alloc with (post := fun _ => True); [lia|rewrite maxAlloc_val; lia|unfold KB; lia|exact I]|].
+  intros _ _.
+  eapply good_bind; [apply k_rd_bytes_good; [auto|lia]|]. intros o3 Ho3. cbv beta in Ho3.
+  destruct (Z.ltb_spec 0 (len - 2 - (1 + ns))); [|apply good_ret; lia].
+  eapply good_weaken; [apply k_read_buf_good; lia|lia|]. cbv beta; intros; lia.
+Qed.
+
+Lemma k_main_segment_good : forall g st m d o, bytes d -> 0 <= o ->
+  good g KB (fun x => o <= snd x) (k_main_segment g st m d o).
+Proof.
+  intros g st m d o Hb Ho. unfold k_main_segment.
+  set (seen := match k_siz st with Some _ => true | None => false end).
+  destruct (m =? 81).
+  { destruct seen; [apply good_err|].
+    eapply good_bind; [apply k_parse_siz_good; auto|]. intros [s o2] (Ho2 & _). apply good_ret. exact Ho2. }
+  destruct (m =? 82).
+  { destruct (negb seen); [apply good_err|]. destruct (k_cod st); [apply good_err|].
+    eapply good_bind; [apply k_parse_cod_good; auto|]. intros o2 Ho2. apply good_ret. exact Ho2. }
+  destruct (m =? 83).
+  { destruct (negb seen); [apply good_err|]. destruct (negb (k_cod st)); [apply good_err|].
+    eapply good_bind; [apply k_parse_coc_good; auto|]. intros [[c body] o2] Ho2. cbn [snd] in Ho2.
+    destruct (assoc (k_coc st) c); [destruct (negb (zlist_eqb l body)); [apply good_err|]|]; apply good_ret; exact Ho2. }
+  destruct (m =? 92).
+  { destruct (negb seen); [apply good_err|]. destruct (k_qcd st); [apply good_err|].
+    eapply good_bind; [apply k_parse_qcd_good; auto|]. intros o2 Ho2. apply good_ret. exact Ho2. }
+  destruct (m =? 93).
+  { destruct (negb seen); [apply good_err|]. destruct (negb (k_qcd st)); [apply good_err|].
+    eapply good_bind; [apply k_parse_qcc_good; auto|]. intros [[c body] o2] Ho2. cbn [snd] in Ho2.
+    destruct (assoc (k_qcc st) c); [destruct (negb (zlist_eqb l body)); [apply good_err|]|]; apply good_ret; exact Ho2. }
+  destruct (m =? 95).
+  { destruct (negb seen); [apply good_err|]. destruct (negb (k_cod st)); [apply good_err|].
+    eapply good_bind; [apply k_parse_poc_good; auto|]. intros o2 Ho2. apply good_ret. exact Ho2. }
+  destruct (m =? 94).
+  { destruct (negb seen); [apply good_err|].
+    eapply good_bind; [apply k_parse_rgn_good; auto|]. intros o2 Ho2. apply good_ret. exact Ho2. }
+  destruct (m =? 100).
+  { destruct (negb seen); [apply good_err|].
+    eapply good_bind; [apply k_parse_com_good; auto|]. intros o2 Ho2. apply good_ret. exact Ho2. }
+  destruct (m =? 116).
+  { destruct (negb seen); [apply good_err|].
+    eapply good_bind; [apply k_parse_mct_good; auto|]. intros o2 Ho2. apply good_ret. exact Ho2. }
+  destruct (m =? 117).
+  { destruct (negb seen); [apply good_err|].
+    eapply good_bind; [apply k_parse_mcc_good; auto|]. intros o2 Ho2. apply good_ret. exact Ho2. }
+  destruct (m =? 119).
+  { destruct (negb seen); [apply good_err|].
+    eapply good_bind; [apply k_parse_mco_good; auto|]. intros o2 Ho2. apply good_ret. exact Ho2. }
+  destruct (negb seen); [apply good_err|].
+  eapply good_bind; [apply k_skip_good; auto|]. intros o2 Ho2. apply good_ret. exact Ho2.
+Qed.
+
+(* the loop: every iteration advances the offset by at least 2 (skipSegment with length 0 moves
+   back by 2 after 4 bytes were consumed) *)
+Lemma k_main_loop_good : forall g fuel st d o, bytes d -> 0 <= o -> Z.max 0 (zlen d - o) < Z.of_nat fuel ->
+  good g KB (fun _ => True) (k_main_loop g fuel st d o).
+Proof.
+  intros g fuel. induction fuel as [|k IH]; intros st d o Hb Ho Hf.
+  - exfalso. simpl in Hf. lia.
+  - cbn [k_main_loop].
+    eapply good_bind; [apply k_rd16_good; auto|]. intros [marker o1] (E & Hm & Hlen). cbn [fst snd] in *. subst o1.
+    destruct ((marker =? 65424) || (marker =? 65497)); [apply good_ret; exact I|].
+    eapply good_bind; [apply k_main_segment_good; [auto|lia]|]. intros [st' o2] Ho2. cbn [fst snd] in *.
+    apply IH; [auto|lia|lia].
+Qed.
+
+Lemma k_main_header_good : forall g d, bytes d -> good g KB (fun _ => True) (k_main_header g (fuel_of d) d).
+Proof.
+  intros g d Hb. unfold k_main_header.
+  eapply good_bind; [apply k_rd16_good; [auto|lia]|]. intros [soc o1] (E & _ & _). cbn [fst snd] in *. subst o1.
+  destruct (negb (soc =? 65359)); [apply good_err|].
+  eapply good_bind.
+  { apply k_main_loop_good; [auto|lia|]. unfold fuel_of, zlen. lia. }
+  intros [st o2] _. cbn [fst snd].
+  destruct (k_siz st); [|apply good_err].
+  destruct (negb (k_cod st)); [apply good_err|]. destruct (negb (k_qcd st)); [apply good_err|].
+  apply good_ret. exact I.
+Qed.
+
+(* with the proposed checks in parseQCD / parseCOM the main-header parser never panics *)
+Theorem k_main_header_no_panic : forall d, bytes d -> fst (k_main_header true (fuel_of d) d) <> Panic.
+Proof. intros d Hb. apply (good_np _ _ _ (k_main_header_good true d Hb)). Qed.
+
+(* termination: length + 2 iterations suffice, also through skipSegment with length 0 or 1 *)
+Theorem k_main_header_fuel : forall g d, bytes d -> fst (k_main_header g (fuel_of d) d) <> OutOfFuel.
+Proof. intros g d Hb. apply (good_nf _ _ _ _ (k_main_header_good g d Hb)). Qed.
+
+(* every allocation request of the main-header parser is below 1 MiB, whatever the header says *)
+Theorem k_main_header_alloc : forall g d, bytes d ->
+  Forall (fun a => a <= 1048576) (snd (k_main_header g (fuel_of d) d)).
+Proof. intros g d Hb. apply (good_allocs _ _ _ _ (k_main_header_good g d Hb)). Qed.
